@@ -14,7 +14,7 @@ ASSUMPTIONS = [
     "symbolic data; each of the four row sets is compared with the reference (so they are equal to each other)",
     "IndexedCache.retrieve is wrapped at run time only to count cache hits (non-vacuity)",
 ]
-BOUNDS = {"quick": dict(domains="2x2, 3 (single), 2x2x2", leaves="L<=2 plus and(or,or) over different variables"),
+BOUNDS = {"quick": dict(domains="2x2, 3 (single), 2x2x2", leaves="L<=2 plus and(or,or) over different variables", unnest="2 parents x 2 candidate elements, 7 conditions"),
           "thorough": dict(domains="3x2, 2x2x2", leaves="L<=3 sampled + C10/C12/C15 families with cache on/off")}
 LIMITS = {"quick": dict(max_paths=8000, max_wall=90), "thorough": dict(max_paths=60000, max_wall=400)}
 FIDELITY_EVERY = {"quick": 4, "thorough": 2}
@@ -123,7 +123,43 @@ class C05Rule(Case):
         return obs
 
 
+class C05Flatten(Case):
+    """UNNEST queries (the C16 family): caching enabled, 1 and 2 evaluations; caching disabled, 1 and 2 evaluations."""
+    prop = "C05"
+
+    def run(self, mk):
+        from entity_query_language.cache_data import enable_caching, disable_caching
+        from props import c16
+        _wrap_retrieve()
+        inner = c16.C16(self.spec["flatten"])
+        self._inner = inner
+        data = inner.prepare(mk)
+        out, datas = {}, {}
+        h0 = HITS["n"]
+        try:
+            for mode in ("on", "off"):
+                (enable_caching if mode == "on" else disable_caching)()
+                for times in (1, 2):
+                    datas["%s#%d" % (mode, times)], out["%s#%d" % (mode, times)] = inner.evaluate(data, times)
+        finally:
+            enable_caching()
+        data = dict(data, datas=datas, hits=HITS["n"] - h0)
+        return data, out
+
+    def metrics(self, data, outcome):
+        return dict(cache_hits=data.get("hits", 0), paths_with_cache_hit=1 if data.get("hits", 0) else 0)
+
+    def obligations(self, alg, data, outcome):
+        obs = []
+        for tag, view in outcome.items():
+            for lbl, t in self._inner.obligations(alg, data["datas"][tag], view):
+                obs.append(("cache_%s:%s" % (tag, lbl), t))
+        return obs
+
+
 def make_case(spec):
+    if "flatten" in spec:
+        return C05Flatten(spec)
     if "rule" in spec:
         return C05Rule(spec)
     return C05(spec)
@@ -193,6 +229,11 @@ def shapes(tier, seed):
             out.append(dict(rule=dict(tree=t)))
             if B <= 3 and len(t) == 1:
                 out.append(dict(rule=dict(tree=t, join=True)))
+    # UNNEST queries: the flattened element through an attribute and directly as a comparison operand
+    for c in (["e>", 1], ["E>", 1], ["E>p"], ["and", ["p>", 0], ["E>", 1]], ["or", ["E>", 1], ["p>", 1]], ["not", ["E>", 1]],
+              ["and", ["E>", 0], ["not", ["e>", 2]]]):
+        for sel, form in ((["p", "e"], "set_of"), (["e"], "entity")):
+            out.append(dict(flatten=dict(parents=2, cands=3 if tier == "thorough" else 2, cond=c, select=sel, form=form)))
     if tier == "thorough":
         skels = list(S.tree_skeletons(3))
         for _ in range(500):
